@@ -126,6 +126,7 @@ type Engine struct {
 	lastGot          []Ev
 	rmOrder          []ecs.Entity
 	forceQ           bool
+	pending          *pendingDump
 	pendingRetention bool
 	noHook           bool // never touch the package-level hook (several engines on real goroutines)
 }
@@ -232,7 +233,21 @@ func (e *Engine) issue(op *COp, why string) (Result, bool, *Violation) {
 	if lockedNow {
 		e.St.Faults["locked-call"]++
 	}
+	var statsBefore uint64
+	if expectPanic {
+		statsBefore = e.statsDigest()
+	}
 	res := e.S.Apply(op)
+	if expectPanic && res.Panicked {
+		if after := e.statsDigest(); after != statsBefore {
+			if lockedNow {
+				// every structural entry point checks the lock before doing anything, so World.Stats() must not move
+				v := e.viol("state-after-locked-call", op, "%s %s was refused on a locked world but World.Stats() changed (tables/nodes/memory were created before the refusal)", op.Kind, op.Variant)
+				return res, false, v
+			}
+			e.St.Probes["stats-moved-after-rejected-illegal-call"]++
+		}
+	}
 	e.log.Str(op.Kind)
 	e.log.Str(op.Variant)
 	e.log.U64(b2u(res.Panicked))
@@ -277,6 +292,28 @@ func (e *Engine) issue(op *COp, why string) (Result, bool, *Violation) {
 		return res, false, v
 	}
 	return res, true, nil
+}
+
+// statsDigest condenses the public World.Stats() report (nodes, tables, capacities, entity pool).
+func (e *Engine) statsDigest() uint64 {
+	st := e.S.W.Stats()
+	d := NewDigest()
+	d.U64(uint64(st.Entities.Used))
+	d.U64(uint64(st.Entities.Total))
+	d.U64(uint64(st.Entities.Recycled))
+	d.U64(uint64(st.ComponentCount))
+	d.U64(uint64(st.ActiveNodeCount))
+	d.U64(uint64(len(st.Nodes)))
+	d.U64(uint64(st.CachedFilters))
+	for i := range st.Nodes {
+		n := &st.Nodes[i]
+		d.U64(uint64(n.ArchetypeCount))
+		d.U64(uint64(n.ActiveArchetypeCount))
+		d.U64(uint64(n.Size))
+		d.U64(uint64(n.Capacity))
+		d.U64(b2u(n.IsActive))
+	}
+	return d.Sum()
 }
 
 func whyOrLocked(why string) string {
@@ -641,6 +678,9 @@ func (e *Engine) finish() *Violation {
 	e.step++
 	e.beginStep()
 	if v := e.checkAll(e.S, ""); v != nil {
+		return v
+	}
+	if v := e.checkPendingDump(); v != nil {
 		return v
 	}
 	if v := e.recoveryProbe(); v != nil {
